@@ -88,7 +88,7 @@ func (p wplan) String() string {
 	}
 	s := fmt.Sprintf("%s #%d fails", p.what, p.k)
 	if p.flavour > 0 {
-		s += " with " + []string{"", "io.ErrUnexpectedEOF", "*fs.PathError{fs.ErrNotExist}", "wrapped context.DeadlineExceeded", "traversal.SkipMe{}", "io.EOF", "context.Canceled", "an error wrapping io.EOF"}[p.flavour]
+		s += " with " + []string{"", "io.ErrUnexpectedEOF", "*fs.PathError{fs.ErrNotExist}", "wrapped context.DeadlineExceeded", "traversal.SkipMe{}", "io.EOF", "context.Canceled", "an error wrapping io.EOF", "*fs.PathError{EEXIST}"}[p.flavour]
 	}
 	return s
 }
@@ -311,15 +311,22 @@ func (c16) Run(ts *tape.Set, tier Tier) *Result {
 		run = func(ls *ipld.LinkSystem, _ io.Reader) (l ipld.Link, sz uint64, err error) {
 			err = quickbuilder.Store(ls, func(b *quickbuilder.Builder) error {
 				m := map[string]quickbuilder.Node{}
-				for i, s := range sizes {
-					buf := make([]byte, s)
+				content := func(i int) []byte {
+					buf := make([]byte, sizes[i])
 					for j := range buf {
 						buf[j] = byte(i + j)
 					}
-					m[fmt.Sprintf("f%d", i)] = b.NewBytesFile(buf)
+					return buf
+				}
+				for i := range sizes {
+					m[fmt.Sprintf("f%d", i)] = b.NewBytesFile(content(i))
 				}
 				inner := b.NewMapDirectory(m)
-				outer := b.NewMapDirectory(map[string]quickbuilder.Node{"inner": inner, "again": m["f0"]})
+				// the same content is handed to the builder a second time, after
+				// a directory that links to it was made: the block is written
+				// again, and still no parent may reach the store before it
+				again := b.NewBytesFile(content(0))
+				outer := b.NewMapDirectory(map[string]quickbuilder.Node{"inner": inner, "again": again, "first": m["f0"]})
 				l = outer.Link()
 				s, _ := outer.Size()
 				sz = uint64(s)
@@ -600,14 +607,14 @@ func (c16) Run(ts *tape.Set, tier Tier) *Result {
 		plans = append(plans, wplan{what: "open", k: k})
 		if k%2 == 1 || steps[store.WOpen] <= 3 {
 			// the same fault reported with a well-known error value
-			plans = append(plans, wplan{what: []string{"open", "commit", "torn"}[k%3], k: k, after: 2, flavour: []int{1, 2, 3, 5, 6, 7}[(k/2)%6]})
+			plans = append(plans, wplan{what: []string{"open", "commit", "torn"}[k%3], k: k, after: 2, flavour: []int{1, 2, 3, 5, 6, 7, 8}[(k/2)%7]})
 		}
 	}
 	// always include the very last (root) block
 	plans = append(plans, wplan{what: "open", k: steps[store.WOpen] - 1})
 	if steps[store.WOpen] <= 40 {
 		for k := 0; k < steps[store.WOpen]; k++ {
-			plans = append(plans, wplan{what: "open", k: k, flavour: 5}, wplan{what: "commit", k: k, flavour: 5})
+			plans = append(plans, wplan{what: "open", k: k, flavour: 5}, wplan{what: "commit", k: k, flavour: 5}, wplan{what: "commit", k: k, flavour: 8})
 		}
 	}
 	for k := 0; k < steps[store.WWrite]; k += stride(steps[store.WWrite]) {
